@@ -189,20 +189,20 @@ Definition try_one (i : bytes) : option (N * bytes * bytes) :=
   | _ => None
   end.
 
-Inductive pres := PDone (seq : N) (payload rest : bytes) | PNeed | PPanicSeq | PFuel.
+Inductive pres := PDone (seq : N) (payload rest : bytes) | PNeed | PBadSeq | PFuel.
 
-(* packet(): fold_many0(fullpacket) then onepacket, with the consecutive-id assertions *)
-Fixpoint packet_f (fuel : nat) (lim : N) (acc : option (N * bytes)) (i : bytes) : pres :=
+(* packet(): fold_many0(fullpacket) then onepacket; the fragments of one message must carry
+   consecutive sequence ids (mod 256), otherwise -- once the whole message is buffered -- the parse
+   FAILS (nom::Err::Failure), which next() turns into an InvalidData error *)
+Fixpoint packet_f (fuel : nat) (lim : N) (acc : option (N * bytes)) (ok : bool) (i : bytes) : pres :=
   match fuel with
   | O => PFuel
   | S f =>
     match try_full lim i with
     | Some (q, body, rest) =>
         match acc with
-        | None => packet_f f lim (Some (q, body)) rest
-        | Some (q0, p0) =>
-            if q =? (q0 + 1) mod 256 then packet_f f lim (Some (q, p0 ++ body)) rest
-            else PPanicSeq
+        | None => packet_f f lim (Some (q, body)) ok rest
+        | Some (q0, p0) => packet_f f lim (Some (q, p0 ++ body)) (ok && (q =? (q0 + 1) mod 256)) rest
         end
     | None =>
         match try_one i with
@@ -210,13 +210,13 @@ Fixpoint packet_f (fuel : nat) (lim : N) (acc : option (N * bytes)) (i : bytes) 
             match acc with
             | None => PDone q body rest
             | Some (q0, p0) =>
-                if q =? (q0 + 1) mod 256 then PDone q (p0 ++ body) rest else PPanicSeq
+                if ok && (q =? (q0 + 1) mod 256) then PDone q (p0 ++ body) rest else PBadSeq
             end
         | None => PNeed
         end
     end
   end.
-Definition packet (lim : N) (i : bytes) : pres := packet_f (S (length i)) lim None i.
+Definition packet (lim : N) (i : bytes) : pres := packet_f (S (length i)) lim None true i.
 
 (* PacketConn::next: the loop reads until a whole (reassembled) packet is buffered.
    [s_buf] abstracts bytes[len-remaining..]; fuel bounds the number of reads. *)
@@ -231,7 +231,7 @@ Fixpoint next_f (fuel : nat) : M (option (N * bytes)) :=
       end in
     match try with
     | PDone q p rest => (ROk (Some (q, p)), set_buf rest s)
-    | PPanicSeq => (RPanic PFragSeq, s)
+    | PBadSeq => (RErr EInvalidData, s)
     | PFuel => (RPanic POutOfFuel, s)
     | PNeed =>
         match t_read s with
